@@ -290,28 +290,38 @@ def check_order(ctx: Context, rep, rule: str) -> None:
     # the Python reader applies decode_array to attribute i of the
     # declaration with vector i
     it = ctx.fn(f"{FBR}:IterateShardFlatBuffer._iterate_content")
-    fors = [n for n in it.body_nodes() if isinstance(n, ast.For) and
-            isinstance(n.iter, ast.Call) and isinstance(n.iter.func, ast.Name)
-            and n.iter.func.id == "enumerate"]
+    # a for loop or a (dict) comprehension over enumerate(declaration)
+    gens = []
+    for n in it.body_nodes():
+        if isinstance(n, ast.For):
+            gens.append((n.iter, n.target, n))
+        elif isinstance(n, ast.comprehension):
+            gens.append((n.iter, n.target, parent(n)))
     ok = False
-    if fors:
-        f0 = fors[0]
-        ok = ast.unparse(f0.iter.args[0]).endswith("saved_data_description") \
-            and isinstance(f0.target, ast.Tuple)
-        if ok:
-            idx, att = [e.id for e in f0.target.elts]
-            ok = any(isinstance(c, ast.Call) and isinstance(
-                c.func, ast.Attribute) and c.func.attr == "Attributes" and
-                     c.args and dotted(c.args[0]) == idx for c in ast.walk(f0)) \
-                and any(isinstance(c, ast.Call) and ast.unparse(c.func).endswith(
-                    "decode_array") and any(k.arg == "attribute" and
-                                            dotted(k.value) == att
-                                            for k in c.keywords)
-                        for c in ast.walk(f0))
+    for g_iter, g_target, scope in gens:
+        if not (isinstance(g_iter, ast.Call) and isinstance(
+                g_iter.func, ast.Name) and g_iter.func.id == "enumerate" and
+                g_iter.args and ast.unparse(g_iter.args[0]).endswith(
+                    "saved_data_description") and
+                isinstance(g_target, ast.Tuple) and not getattr(
+                    g_iter, "keywords", None)):
+            continue
+        idx, att = [e.id for e in g_target.elts]
+        ok = any(isinstance(c, ast.Call) and isinstance(
+            c.func, ast.Attribute) and c.func.attr == "Attributes" and
+                 c.args and dotted(c.args[0]) == idx for c in ast.walk(scope)) \
+            and any(isinstance(c, ast.Call) and ast.unparse(c.func).endswith(
+                "decode_array") and any(k.arg == "attribute" and
+                                        dotted(k.value) == att
+                                        for k in c.keywords)
+                    for c in ast.walk(scope)) and (
+                        f"[{att}.name]" in ast.unparse(scope) or
+                        f"{att}.name:" in ast.unparse(scope))
     rep.ob(rule, ok, loc=it.loc(), where=it.qualname,
            construct="for i, attribute in enumerate(saved_data_description): "
-           "decode_array(Attributes(i), attribute)",
-           message="vector i is decoded with declaration i")
+           "decode_array(Attributes(i), attribute) -> [attribute.name]",
+           message="vector i is decoded with declaration i and stored under "
+           "that attribute's name")
     # writer iterates the same declaration order
     w = ctx.fn(f"{FBW}:ShardWriterFlatBuffer._write")
     wf = [n for n in w.body_nodes() if isinstance(n, ast.For) and
@@ -322,9 +332,22 @@ def check_order(ctx: Context, rep, rule: str) -> None:
                 k.arg == "value" and ast.unparse(k.value) ==
                 f"values[{wf[0].target.id}.name]" for k in c.keywords)
         for c in ast.walk(wf[0])) if wf else False
-    rev = [n for n in w.body_nodes() if isinstance(n, ast.For) and isinstance(
-        n.iter, ast.Call) and isinstance(n.iter.func, ast.Name) and
-           n.iter.func.id == "reversed"]
+    # FlatBuffers vectors are built back to front: every prepend of offsets
+    # (in _write or a helper it calls) iterates reversed(offsets)
+    wmod = ctx.repo.module(FBW)
+    prepends = [(f, c) for f in wmod.functions.values() for c in f.calls()
+                if isinstance(c.func, ast.Attribute) and
+                c.func.attr == "PrependUOffsetTRelative"]
+    rev_ok = bool(prepends)
+    for f, c in prepends:
+        lp = parent(parent(c))
+        rev_ok = rev_ok and isinstance(lp, ast.For) and isinstance(
+            lp.iter, ast.Call) and isinstance(lp.iter.func, ast.Name) and \
+            lp.iter.func.id == "reversed" and dotted(c.args[0]) == dotted(
+                lp.target)
+    reach_w = {w.fq} | ctx.cg.reachable([w.fq])
+    rev_ok = rev_ok and any(f.fq in reach_w for f, _c in prepends)
+    rev = [1] if rev_ok else []
     rep.ob(rule, okw and len(rev) == 1, loc=w.loc(), where=w.qualname,
            construct="for attribute in saved_data_description: "
            "save(values[attribute.name]); prepend reversed(offsets)",
@@ -403,9 +426,16 @@ def tfrec_tables(ctx: Context):
     reader: dict[str, str] = {}
     rd = None
     for n in frm.body_nodes():
-        if isinstance(n, ast.Subscript) and isinstance(n.value, ast.Dict) and \
-                ast.unparse(n.slice).endswith("attribute.dtype"):
-            rd = n.value
+        if isinstance(n, ast.Subscript) and ast.unparse(n.slice).endswith(
+                "attribute.dtype"):
+            if isinstance(n.value, ast.Dict):
+                rd = n.value
+            elif isinstance(n.value, ast.Name) and isinstance(
+                    mod.globals.get(n.value.id), ast.Dict) and all(
+                        ast.unparse(v).startswith("tf.")
+                        for v in mod.globals[n.value.id].values) and len(
+                            mod.globals[n.value.id].keys) > 3:
+                rd = mod.globals[n.value.id]
     if rd is None:
         raise AnalysisError("C01.tfrec: reader dtype table not found")
     for k, v in zip(rd.keys, rd.values):
